@@ -155,3 +155,245 @@ Proof.
   split; [vm_compute; reflexivity|]. split; [vm_compute; reflexivity|].
   split; [apply add_timer_ok; apply timer_ok_new|vm_compute; reflexivity].
 Qed.
+
+(* ==================================================================================================
+   reconciler/retries.go at heap level: the two container/heap priority queues with their index bookkeeping
+   (Reconciler/Heap.v, modelled from retries.go and container/heap; engine retryq compares it with the real
+   queue, ties included) and its refinement to the list model Retries.v used above. *)
+From Coq Require Import ZArith.
+From SV Require Import Reconciler.Heap Reconciler.HeapProofs Reconciler.HeapInv Reconciler.HeapRefine Reconciler.HeapRefuted.
+
+(* ---- the two container/heap queues of retries.go: invariant (HInv = one item per key; item.index / revIndex =
+   position in queue.items / revQueue.items or -1; heap order of both arrays; every item of the map is in revQueue) *)
+Theorem C16_heap_inv_initial : forall a b, HInv (hq_new a b).
+Proof. exact HInv_new. Qed.
+Print Assumptions C16_heap_inv_initial.
+
+Theorem C16_heap_inv_preserved : forall hs op, HInv hs -> HInv (apply_hop hs op).
+Proof. exact HInv_apply. Qed.
+Print Assumptions C16_heap_inv_preserved.
+
+Theorem C16_heap_inv_reachable : forall hs, hreach hs -> HInv hs.
+Proof. exact HInv_reach. Qed.
+Print Assumptions C16_heap_inv_reachable.
+
+(* (a) both arrays are duplicate-free; queue.items is a subset of revQueue.items = the keys of the map *)
+Theorem C16_heap_arrays : forall hs, HInv hs ->
+  NoDup (hs_q hs) /\ NoDup (hs_r hs) /\
+  (forall pk, In pk (hs_q hs) -> In pk (hs_r hs)) /\
+  (forall pk, In pk (hs_r hs) <-> In pk (map hi_pk (hs_store hs))).
+Proof. exact HInv_arrays. Qed.
+Print Assumptions C16_heap_arrays.
+
+(* (b) index bookkeeping *)
+Theorem C16_heap_index_bookkeeping : forall hs pk it, HInv hs -> st_get pk (hs_store hs) = Some it ->
+  (forall i, (i < length (hs_q hs))%nat -> (nth i (hs_q hs) 0 = pk <-> hi_index it = Z.of_nat i)) /\
+  (~ In pk (hs_q hs) <-> hi_index it = (-1)%Z) /\
+  (forall i, (i < length (hs_r hs))%nat -> (nth i (hs_r hs) 0 = pk <-> hi_revIndex it = Z.of_nat i)) /\
+  In pk (hs_r hs) /\ hi_revIndex it <> (-1)%Z.
+Proof. exact HInv_index. Qed.
+Print Assumptions C16_heap_index_bookkeeping.
+
+(* (c) heap order: a parent is not greater than its children, in both arrays *)
+Theorem C16_heap_order : forall hs, HInv hs ->
+  (forall j, (0 < j < length (hs_q hs))%nat ->
+     hi_at (st_getd (nth (Nat.div (j - 1) 2) (hs_q hs) 0) (hs_store hs)) <= hi_at (st_getd (nth j (hs_q hs) 0) (hs_store hs))) /\
+  (forall j, (0 < j < length (hs_r hs))%nat ->
+     hi_orig (st_getd (nth (Nat.div (j - 1) 2) (hs_r hs) 0) (hs_store hs)) <= hi_orig (st_getd (nth j (hs_r hs) 0) (hs_store hs))).
+Proof. exact HInv_order. Qed.
+Print Assumptions C16_heap_order.
+
+(* ---- Top / Pop / Clear / LowWatermark on the heaps *)
+Theorem C16_heap_top_minimal : forall hs t, HInv hs -> hq_top hs = Some t ->
+  st_get (hi_pk t) (hs_store hs) = Some t /\ hi_index t = 0%Z /\ nth 0 (hs_q hs) 0 = hi_pk t /\
+  forall pk it, st_get pk (hs_store hs) = Some it -> hi_index it <> (-1)%Z -> hi_at t <= hi_at it.
+Proof. exact hq_top_min. Qed.
+Print Assumptions C16_heap_top_minimal.
+
+Theorem C16_heap_top_none_iff : forall hs, HInv hs -> (hq_top hs = None <-> forall pk, ~ queued QT (hs_store hs) pk).
+Proof. exact hq_top_none. Qed.
+Print Assumptions C16_heap_top_none_iff.
+
+Theorem C16_heap_pop_removes_top : forall hs t, HInv hs -> hq_top hs = Some t ->
+  exists hs', hq_pop hs = Some hs' /\ HInv hs' /\
+    (forall pk, In pk (hs_q hs') <-> pk <> hi_pk t /\ In pk (hs_q hs)) /\
+    S (length (hs_q hs')) = length (hs_q hs) /\
+    hs_r hs' = hs_r hs /\ map (erase QT) (hs_store hs') = map (erase QT) (hs_store hs).
+Proof. exact hq_pop_removes_top. Qed.
+Print Assumptions C16_heap_pop_removes_top.
+
+(* Clear: both guards (range + key comparison) are true whenever the item is in the respective heap, and
+   exactly the item of pk leaves the map and both arrays *)
+Theorem C16_heap_clear_exact : forall hs pk it, HInv hs -> st_get pk (hs_store hs) = Some it ->
+  (In pk (hs_q hs) -> clear_guard (hi_index it) (hs_q hs) pk = true) /\
+  clear_guard (hi_revIndex it) (hs_r hs) pk = true /\
+  HInv (hq_clear hs pk) /\
+  st_get pk (hs_store (hq_clear hs pk)) = None /\
+  (forall pk', In pk' (hs_q (hq_clear hs pk)) <-> pk' <> pk /\ In pk' (hs_q hs)) /\
+  (forall pk', In pk' (hs_r (hq_clear hs pk)) <-> pk' <> pk /\ In pk' (hs_r hs)) /\
+  map erase2 (hs_store (hq_clear hs pk)) = map erase2 (st_del pk (hs_store hs)).
+Proof. exact hq_clear_exact. Qed.
+Print Assumptions C16_heap_clear_exact.
+
+(* LowWatermark peeks revQueue: 0 when the map is empty, else the minimum origRev over the map; the state
+   is unchanged and the lazy-deletion loop performs no PopItem *)
+Theorem C16_heap_low_watermark : forall hs, HInv hs ->
+  exists v, hq_low_watermark hs = (v, hs, 0%nat) /\
+    (hs_store hs = [] -> v = 0) /\
+    (hs_store hs <> [] -> (exists it, In it (hs_store hs) /\ hi_orig it = v) /\
+                          forall it, In it (hs_store hs) -> v <= hi_orig it).
+Proof. exact hq_lwm_spec. Qed.
+Print Assumptions C16_heap_low_watermark.
+
+Theorem C16_heap_low_watermark_zero_iff : forall hs, HInv hs -> (forall it, In it (hs_store hs) -> 0 < hi_orig it) ->
+  (fst (fst (hq_low_watermark hs)) = 0 <-> hs_store hs = []).
+Proof. exact hq_lwm_zero_iff. Qed.
+Print Assumptions C16_heap_low_watermark_zero_iff.
+
+Theorem C16_heap_lwm_never_pops : forall hs, hreach hs ->
+  snd (hq_low_watermark hs) = 0%nat /\ snd (fst (hq_low_watermark hs)) = hs.
+Proof. exact lwm_never_pops. Qed.
+Print Assumptions C16_heap_lwm_never_pops.
+
+(* ---- timer re-arm invariant at heap level (ties included) *)
+Theorem C16_heap_timer_rearmed : forall hs op, HInv hs -> htimer_ok hs -> htimer_ok (apply_hop hs op).
+Proof. exact htimer_ok_apply. Qed.
+Print Assumptions C16_heap_timer_rearmed.
+
+Theorem C16_heap_due_head_wakes_loop : forall hs now t, HInv hs -> htimer_ok hs -> hq_top hs = Some t -> hi_at t <= now ->
+  hq_fired hs now = true.
+Proof. exact htimer_due_head_fires. Qed.
+Print Assumptions C16_heap_due_head_wakes_loop.
+
+(* ---- refinement to the list model Retries.v (abs forgets the arrays and the index fields) *)
+Theorem C16_heap_refines_add_items : forall hs o rev orig del now, HInv hs ->
+  q_items (abs (hq_add hs o rev orig del now)) = q_items (r_add (abs hs) o rev orig del now).
+Proof. exact abs_add_items. Qed.
+Print Assumptions C16_heap_refines_add_items.
+
+Theorem C16_heap_refines_clear_items : forall hs pk, HInv hs ->
+  q_items (abs (hq_clear hs pk)) = q_items (r_clear (abs hs) pk).
+Proof. exact abs_clear_items. Qed.
+Print Assumptions C16_heap_refines_clear_items.
+
+Theorem C16_heap_refines_low_watermark : forall hs, HInv hs -> fst (fst (hq_low_watermark hs)) = r_low_watermark (abs hs).
+Proof. exact abs_low_watermark. Qed.
+Print Assumptions C16_heap_refines_low_watermark.
+
+Theorem C16_heap_refines_top_retryat : forall hs, HInv hs -> option_map hi_at (hq_top hs) = option_map ri_at (r_top (abs hs)).
+Proof. exact abs_top_at. Qed.
+Print Assumptions C16_heap_refines_top_retryat.
+
+Theorem C16_heap_refines_top_item_when_unique : forall hs t, HInv hs -> hq_top hs = Some t ->
+  (forall pk it, st_get pk (hs_store hs) = Some it -> hi_index it <> (-1)%Z -> pk <> hi_pk t -> hi_at it <> hi_at t) ->
+  r_top (abs hs) = Some (abs_item t).
+Proof. exact abs_top_item. Qed.
+Print Assumptions C16_heap_refines_top_item_when_unique.
+
+(* up to ties: the heap performs Retries.v's operation with one of the allowed tie-dependent choices ... *)
+Theorem C16_heap_add_up_to_ties : forall hs o rev orig del now, HInv hs ->
+  exists b, abs (hq_add hs o rev orig del now) = r_add_b b (abs hs) o rev orig del now /\
+            add_ok b (abs hs) o rev orig del now.
+Proof. exact abs_add. Qed.
+Print Assumptions C16_heap_add_up_to_ties.
+
+Theorem C16_heap_clear_up_to_ties : forall hs pk, HInv hs ->
+  exists b, abs (hq_clear hs pk) = r_clear_b b (abs hs) pk /\ clear_ok b (abs hs) pk.
+Proof. exact abs_clear. Qed.
+Print Assumptions C16_heap_clear_up_to_ties.
+
+Theorem C16_heap_pop_up_to_ties : forall hs, HInv hs -> hs_q hs <> [] ->
+  exists hs' t, hq_pop hs = Some hs' /\ hq_top hs = Some t /\
+    abs hs' = r_pop_t (abs_item t) (abs hs) /\ is_head (q_items (abs hs)) (abs_item t).
+Proof. exact abs_pop. Qed.
+Print Assumptions C16_heap_pop_up_to_ties.
+
+(* ... Retries.v's own choice is one of them, every allowed choice keeps timer_ok ... *)
+Theorem C16_heap_list_add_is_allowed : forall q o rev orig del now, uniq q ->
+  add_ok (match others_min_at (o_pk o) (q_items q) with None => true | Some m => ri_at (new_item q o rev orig del now) <? m end)
+         q o rev orig del now.
+Proof. exact r_add_ok. Qed.
+Print Assumptions C16_heap_list_add_is_allowed.
+
+Theorem C16_heap_any_add_choice_keeps_timer : forall b q o rev orig del now, timer_ok q -> add_ok b q o rev orig del now ->
+  timer_ok (r_add_b b q o rev orig del now).
+Proof. exact add_b_timer_ok. Qed.
+Print Assumptions C16_heap_any_add_choice_keeps_timer.
+
+(* ... and without ties it is exactly Retries.v: simulation of whole runs *)
+Theorem C16_heap_simulation_initial : forall a b, R (hq_new a b) (r_new a b).
+Proof. exact R_new. Qed.
+Print Assumptions C16_heap_simulation_initial.
+
+Theorem C16_heap_simulation_step : forall hs q op, R hs q -> op_no_tie q op -> R (apply_hop hs op) (apply_rop q op).
+Proof. exact R_step. Qed.
+Print Assumptions C16_heap_simulation_step.
+
+Theorem C16_heap_simulation_observables : forall hs q, R hs q ->
+  q_items q = map abs_item (hs_store hs) /\
+  fst (fst (hq_low_watermark hs)) = r_low_watermark q /\
+  hs_timer hs = q_timer q /\ (forall now, hq_fired hs now = r_fired q now) /\
+  option_map hi_at (hq_top hs) = option_map ri_at (r_top q) /\
+  (forall t, hq_top hs = Some t ->
+     (forall pk it, st_get pk (hs_store hs) = Some it -> hi_index it <> (-1)%Z -> pk <> hi_pk t -> hi_at it <> hi_at t) ->
+     r_top q = Some (abs_item t)).
+Proof. exact R_observables. Qed.
+Print Assumptions C16_heap_simulation_observables.
+
+(* numRetries evolves as in Retries.v (C16_add_increments_numretries, C16_clear_resets_backoff) *)
+Theorem C16_heap_add_increments_numretries : forall hs o rev orig del now, HInv hs ->
+  n_of (abs (hq_add hs o rev orig del now)) (o_pk o) = Some (match n_of (abs hs) (o_pk o) with Some n => n + 1 | None => 1 end).
+Proof. exact abs_add_numretries. Qed.
+Print Assumptions C16_heap_add_increments_numretries.
+
+Theorem C16_heap_clear_resets_numretries : forall hs pk pk', HInv hs ->
+  n_of (abs (hq_clear hs pk)) pk' = if pk' =? pk then None else n_of (abs hs) pk'.
+Proof. exact abs_clear_numretries. Qed.
+Print Assumptions C16_heap_clear_resets_numretries.
+
+Theorem C16_heap_pop_keeps_numretries : forall hs hs' pk, HInv hs -> hq_pop hs = Some hs' -> n_of (abs hs') pk = n_of (abs hs) pk.
+Proof. exact abs_pop_numretries. Qed.
+Print Assumptions C16_heap_pop_keeps_numretries.
+
+(* ---- bookkeeping bugs the heap-level model tells apart (witnesses by computation) *)
+Theorem C16_heap_clear_wrong_index_guarded_refuted :
+  hs_q st3 = [1; 2; 3] /\ hs_r st3 = [3; 2; 1] /\
+  In 3 (hs_q (hq_clear_wrongidx true st3 3)) /\ ~ In 3 (pks (hq_clear_wrongidx true st3 3)).
+Proof. exact clear_wrong_index_guarded_refuted. Qed.
+Print Assumptions C16_heap_clear_wrong_index_guarded_refuted.
+
+Theorem C16_heap_clear_wrong_index_unguarded_refuted :
+  hs_q (hq_clear_wrongidx false st3 3) = [2; 3] /\ In 1 (pks (hq_clear_wrongidx false st3 3)) /\
+  hs_q (hq_clear st3 3) = [1; 2].
+Proof. exact clear_wrong_index_unguarded_refuted. Qed.
+Print Assumptions C16_heap_clear_wrong_index_unguarded_refuted.
+
+Theorem C16_heap_add_without_revqueue_fix_refuted :
+  fst (fst (hq_low_watermark (hq_add_norevfix st2 (ob 1) 9 9 false 0))) = 9 /\
+  fst (fst (hq_low_watermark (hq_add st2 (ob 1) 9 9 false 0))) = 6.
+Proof. exact add_without_revqueue_fix_refuted. Qed.
+Print Assumptions C16_heap_add_without_revqueue_fix_refuted.
+
+(* the list model of Retries.v is NOT exact under ties: same operations, different timer *)
+Theorem C16_heap_list_model_exact_under_ties_refuted :
+  hs_timer tie_hs = q_timer tie_q /\
+  hs_timer (hq_add tie_hs (ob 1) 3 1 false 0) = Some 40 /\ q_timer (r_add tie_q (ob 1) 3 1 false 0) = Some 20 /\
+  hq_fired (hq_add tie_hs (ob 1) 3 1 false 0) 30 = false /\ r_fired (r_add tie_q (ob 1) 3 1 false 0) 30 = true.
+Proof. exact list_model_exact_under_ties_refuted. Qed.
+Print Assumptions C16_heap_list_model_exact_under_ties_refuted.
+
+(* hypotheses are satisfiable: a reachable state with three queued items of equal retryAt, a popped item that is
+   still in revQueue, a non-trivial low watermark and an armed timer *)
+Example C16_heap_nonvacuous :
+  exists hs t, hreach hs /\ HInv hs /\ htimer_ok hs /\ hq_top hs = Some t /\
+    length (hs_q hs) = 3%nat /\ length (hs_r hs) = 4%nat /\
+    (exists it, st_get 2 (hs_store hs) = Some it /\ hi_pk it <> hi_pk t /\ hi_index it <> (-1)%Z /\ hi_at it = hi_at t) /\
+    fst (fst (hq_low_watermark hs)) = 3.
+Proof.
+  set (ops := [HAdd (ob 1) 7 7 false 0; HAdd (ob 2) 5 5 false 0; HAdd (ob 3) 3 3 true 0; HAdd (ob 4) 9 9 false 0; HPop]).
+  assert (Hr : hreach (fold_left apply_hop ops (hq_new 10 10))) by (exists 10, 10, ops; reflexivity).
+  eexists. eexists. split; [exact Hr|]. split; [apply HInv_reach; exact Hr|].
+  split; [|vm_compute; split; [reflexivity|]; split; [reflexivity|]; split; [reflexivity|]; split; [|reflexivity];
+           eexists; split; [reflexivity|]; split; [discriminate|]; split; [discriminate|reflexivity]].
+  intros t Ht. vm_compute in Ht. injection Ht as <-. vm_compute. eexists. split; [reflexivity|]. discriminate.
+Qed.
